@@ -76,8 +76,25 @@ def appendLastRow (rows : List (List Inlines)) (i : Inline) : Option (List (List
   | [r] => (appendLast r i).map ([·])
   | r :: r2 :: rest => (appendLastRow (r2 :: rest) i).map (r :: ·)
 
+/-- list arms of `append_inline`: a bare inline of a (tight) list item continues the implicit paragraph at the
+end of the item, or starts one — also after a code block, rule, heading, quote or nested list of the item -/
+def appendToItem : List DBlock → Inline → LineRange → List DBlock
+  | [], i, pos => [.para pos [i]]
+  | [.para lr xs], i, _ => [.para lr (xs ++ [i])]
+  | [b], i, pos => [b, .para pos [i]]
+  | b :: b2 :: rest, i, pos => b :: appendToItem (b2 :: rest) i pos
+
+/-- the inline goes to the last item; `items.last_mut().unwrap()` on an empty list panics -/
+def appendToItems : List (List DBlock) → Inline → LineRange → Except Site (List (List DBlock))
+  | [], _, _ => .error (.other "append_inline: list without item")
+  | [it], i, pos => .ok [appendToItem it i pos]
+  | it :: it2 :: rest, i, pos =>
+    match appendToItems (it2 :: rest) i pos with
+    | .error e => .error e
+    | .ok its => .ok (it :: its)
+
 mutual
-/-- `DocumentBlock::append_inline` (recursive through quotes and list items) -/
+/-- `DocumentBlock::append_inline` (recursive through quotes) -/
 def appendInline : DBlock → Inline → LineRange → Except Site DBlock
   | .para lr xs, i, _ => .ok (.para lr (xs ++ [i]))
   | .header lr l xs, i, _ => .ok (.header lr l (xs ++ [i]))
@@ -105,7 +122,7 @@ def appendInline : DBlock → Inline → LineRange → Except Site DBlock
       match appendLastRow rows i with
       | some rs => .ok (.table lr header al rs)
       | none => .ok (.table lr header al rows)
-/-- the inline goes to the last block (a fresh paragraph when there is none) -/
+/-- quote arm: the inline goes to the last block (a fresh paragraph when there is none) -/
 def appendToBlocks : List DBlock → Inline → LineRange → Except Site (List DBlock)
   | [], i, pos => .ok [.para pos [i]]
   | [b], i, pos =>
@@ -116,17 +133,6 @@ def appendToBlocks : List DBlock → Inline → LineRange → Except Site (List 
     match appendToBlocks (b2 :: rest) i pos with
     | .error e => .error e
     | .ok bs => .ok (b :: bs)
-/-- list arms: the inline goes to the last item; `items.last_mut().unwrap()` on an empty list panics -/
-def appendToItems : List (List DBlock) → Inline → LineRange → Except Site (List (List DBlock))
-  | [], _, _ => .error (.other "append_inline: list without item")
-  | [it], i, pos =>
-    match appendToBlocks it i pos with
-    | .error e => .error e
-    | .ok it' => .ok [it']
-  | it :: it2 :: rest, i, pos =>
-    match appendToItems (it2 :: rest) i pos with
-    | .error e => .error e
-    | .ok its => .ok (it :: its)
 end
 
 def isContainer : DBlock → Bool
